@@ -414,6 +414,9 @@ impl<'a, S: Scenario> Walker<'a, S> {
 struct Item {
     cfg: usize,
     prefix: Vec<usize>,
+    /// the prefix ends in a state that another item owns (the root, or the state behind an
+    /// earlier root action): execute and check the prefix, explore nothing below it
+    leaf: bool,
 }
 
 /// Replays a work item's prefix and explores below it.
@@ -486,7 +489,10 @@ fn run_item<S: Scenario>(
             break;
         }
     }
-    if ok {
+    if ok && item.leaf {
+        wk.local.dedup += 1;
+        wk.local.traces += 1;
+    } else if ok {
         wk.dfs(&m, item.prefix.len(), &mut path);
     }
     wk.flush();
@@ -508,19 +514,18 @@ fn make_items<S: Scenario>(s: &S, bound: usize, known: &Known) -> Vec<Item> {
         let acts = s.actions(&ctx, &m0);
         if acts.is_empty() {
             // nothing to do from the root, but its probes must still run
-            items.push(Item { cfg, prefix: vec![] });
+            items.push(Item { cfg, prefix: vec![], leaf: false });
             continue;
         }
         if bound == 1 {
             // chunk the root actions so that every item has a fair amount of work
             for i in 0..acts.len() {
-                items.push(Item {
-                    cfg,
-                    prefix: vec![i],
-                });
+                items.push(Item { cfg, prefix: vec![i], leaf: false });
             }
             continue;
         }
+        let mut seen: std::collections::HashSet<u128> = std::collections::HashSet::new();
+        seen.insert(key_of(cfg, w.state_hash(), &m0));
         for (i, a) in acts.iter().enumerate() {
             let mut m = m0.clone();
             let mut wk = Walker {
@@ -535,18 +540,20 @@ fn make_items<S: Scenario>(s: &S, bound: usize, known: &Known) -> Vec<Item> {
             };
             let cont = wk.do_step(&ctx, &mut m, a, &vec![a.clone()], false);
             let n = if cont { s.actions(&ctx, &m).len() } else { 0 };
+            // a root action that leads back to the root state or to the state behind an earlier
+            // root action is executed and checked once; the state itself is expanded (with at
+            // least as much remaining depth) by the items of its first occurrence
+            let fresh = !cont || seen.insert(key_of(cfg, w.state_hash(), &m));
             w.restore(&root);
+            if !fresh {
+                items.push(Item { cfg, prefix: vec![i], leaf: true });
+                continue;
+            }
             if n == 0 {
-                items.push(Item {
-                    cfg,
-                    prefix: vec![i, 0],
-                });
+                items.push(Item { cfg, prefix: vec![i, 0], leaf: false });
             }
             for j in 0..n {
-                items.push(Item {
-                    cfg,
-                    prefix: vec![i, j],
-                });
+                items.push(Item { cfg, prefix: vec![i, j], leaf: false });
             }
         }
     }
